@@ -302,6 +302,13 @@ def _range_exec(case: dict[str, Any]) -> dict[str, Any]:
     return {"same": U.same_array(a[0], b[0]), "removed": 2 - n1, "pass_folded": n1 < 2, "before": a[0].tolist()[:8], "after": b[0].tolist()[:8]}
 
 
+def _int_vocab_job():
+    from harness.vocabreplay import impl_sets, int_vocab_cases, replay_int_vocab
+
+    ops = sorted({o for k, v in impl_sets().items() if "INTEGER_VALUE" in k for o in v})
+    return {"ops": ops, "records": replay_int_vocab(int_vocab_cases(ops))}
+
+
 def run(ctx: Ctx) -> None:
     rng = random.Random(ctx.seed)
     names, acc = _facts()
@@ -442,6 +449,23 @@ def run(ctx: Ctx) -> None:
                 ctx.extra.setdefault("conformance_drift", []).append({"range": c, "note": "prover claims fit, not true, but ORT outputs equal"})
         if c["hasB"] and seq and not (c["bmin"] <= min(seq) and max(seq) <= c["bmax"]):
             ctx.extra.setdefault("conformance_drift", []).append({"range": c, "note": "computed bounds do not enclose emitted values"})
+    # ---- the prover's operator vocabulary (facts): each member between Range and the cast pair, with
+    # run-time operands that carry out-of-range values
+    from harness.pool import run_tasks as _rt
+
+    iv = _rt([{"fn": "harness.checks.c17:_int_vocab_job", "args": {}, "timeout": 900}], nworkers=1, timeout=900)[0][1]
+    if iv.get("status") != "ok":
+        raise MachineryError(f"integer vocabulary job failed: {str(iv)[:400]}")
+    ctx.extra["integer_preserving_ops"] = iv["result"]["ops"]
+    ctx.extra["integer_vocabulary_uninstantiable"] = sorted({r_["op"] for r_ in iv["result"]["records"] if r_["status"] != "ok"})
+    for r_ in iv["result"]["records"]:
+        if r_["status"] != "ok":
+            continue
+        traces += 1
+        ctx.count(("int_vocab", r_["op"], r_["src"], r_["mid"]), nontrivial=r_["casts_after"] < 2)
+        if not r_["same"]:
+            ctx.violation({"engine": "cast_int_vocab", "op": r_["op"], "src": r_["src"], "mid": r_["mid"]},
+                          f"narrowing round trip {r_['src']}->{r_['mid']}->{r_['src']} dropped behind {r_['op']}(Range, run-time operand): {r_.get('witness')}", r_)
     if tlc_range_violation == "FitsSound" and not ctx.violations:
         ctx.extra.setdefault("conformance_drift", []).append({"note": "TLC FitsSound violated but ORT shows no output change"})
     ctx.extra["range_cases"] = len(rf)
